@@ -215,7 +215,7 @@ std::string plan_to_text(const Plan &p) {
     for (auto &n : p.nodes)
         s << "node glue=" << n.glue << " mtu=" << n.mtu << " attr_seed=" << n.attr_seed << " wifi=" << (n.wifi ? 1 : 0) << " failmask=" << n.failmask
           << " esp32=" << (n.side_esp32 ? 1 : 0) << " classifier=" << (n.side_classifier ? 1 : 0) << " rxfill=" << (int)n.rxfill
-          << " proc_us=" << n.proc_us << " tick_jitter=" << n.tick_jitter << (n.null_ctx ? " nullctx=1" : "") << "\n";
+          << " proc_us=" << n.proc_us << " tick_jitter=" << n.tick_jitter << (n.null_ctx ? " nullctx=1" : "") << (n.ctx_alias ? " ctxalias=" + std::to_string(n.ctx_alias) : std::string()) << "\n";
     for (auto &o : p.ops) s << op_to_text(o) << "\n";
     s << "end\n";
     return s.str();
@@ -266,7 +266,7 @@ bool plan_from_text(const std::string &text, Plan &p, std::string &err) {
             n.attr_seed = strtoull(m["attr_seed"].c_str(), 0, 10); n.wifi = m["wifi"] == "1";
             n.failmask = (uint32_t)strtoul(m["failmask"].c_str(), 0, 10); n.side_esp32 = m["esp32"] == "1";
             n.side_classifier = m["classifier"] == "1"; n.rxfill = (uint8_t)atoi(m["rxfill"].c_str());
-            n.proc_us = (uint32_t)strtoul(m["proc_us"].c_str(), 0, 10); n.tick_jitter = (uint32_t)strtoul(m["tick_jitter"].c_str(), 0, 10); n.null_ctx = m.count("nullctx") && m["nullctx"] == "1";
+            n.proc_us = (uint32_t)strtoul(m["proc_us"].c_str(), 0, 10); n.tick_jitter = (uint32_t)strtoul(m["tick_jitter"].c_str(), 0, 10); n.null_ctx = m.count("nullctx") && m["nullctx"] == "1"; n.ctx_alias = m.count("ctxalias") ? atoi(m["ctxalias"].c_str()) : 0;
             p.nodes.push_back(n);
         } else if (key == "op") {
             std::string name;
@@ -446,7 +446,13 @@ int lltd_port_get_icon_image(void **out_data, size_t *out_size) {
 int lltd_port_get_friendly_name(void **out_data, size_t *out_size) {
     Node *n = g_w->cur;
     if (!n || !out_data || !out_size) return -1;
-    auto fail = [&]() { int style = (int)(n->cfg.attr_seed % 3); if (style == 1) { *out_data = nullptr; *out_size = 0; } else if (style == 2) { *out_data = nullptr; *out_size = n->attr.fname.size() ? n->attr.fname.size() : 33; } return -1; };
+    auto fail = [&]() {
+        int style = (int)(n->cfg.attr_seed % 4);
+        if (style == 1) { *out_data = nullptr; *out_size = 0; }
+        else if (style == 2) { *out_data = nullptr; *out_size = n->attr.fname.size() ? n->attr.fname.size() : 33; }
+        else if (style == 3) { void *q = ledger_alloc(8, 3); if (q) lltd_port_free(q); *out_data = q; *out_size = 0; } // buf = malloc; ... fail: free(buf); return -1 - the pointer is left behind, dangling
+        return -1;
+    };
     if (getter_fails(n, G_FNAME) || !n->attr.fname_avail) { note_getfail(G_FNAME); return fail(); }
     void *p = ledger_alloc(n->attr.fname.size(), 3);
     if (!p) return fail();
@@ -460,6 +466,7 @@ size_t lltd_port_get_hostname(void *dst, size_t dst_len) {
     if (getter_fails(n, G_HOSTNAME)) { note_getfail(G_HOSTNAME); return 0; }
     size_t len = std::min(n->attr.hostname.size(), dst_len);
     if (len) memcpy(dst, n->attr.hostname.data(), len);
+    if (((n->cfg.attr_seed >> 11) & 7) == 0) for (size_t i = len; i < dst_len; i++) ((uint8_t *)dst)[i] = (uint8_t)(0x41 + i % 26); // a fixed-size name field copied whole: the tail of an older, longer name follows the valid bytes
     return n->attr.hostname_ret_full ? n->attr.hostname.size() : len;
 }
 size_t lltd_port_get_support_url(void *dst, size_t dst_len) { (void)dst; (void)dst_len; return 0; }
@@ -524,6 +531,7 @@ size_t lltd_port_get_ssid(void *ctx, void *dst, size_t dst_len) {
     if (getter_fails(n, G_SSID)) { note_getfail(G_SSID); return 0; }
     size_t len = std::min(n->attr.ssid.size(), dst_len);
     if (len) memcpy(dst, n->attr.ssid.data(), len);
+    if (((n->cfg.attr_seed >> 14) & 7) == 0) for (size_t i = len; i < dst_len; i++) ((uint8_t *)dst)[i] = (uint8_t)(0x61 + i % 26); // the 32-byte ESSID field copied whole
     return n->attr.ssid_ret_full ? n->attr.ssid.size() : len;
 }
 int lltd_port_get_wifi_max_rate_0_5mbps(void *ctx, uint16_t *out) {
@@ -652,6 +660,7 @@ int World::make_node(const NodeCfg &c, bool hidden, const Attr *same_interface_a
     int idx = (int)nodes.size();
     nodes.push_back(std::move(n));
     Node *np = nodes[idx].get();
+    if (c.ctx_alias > 0 && !hidden && idx > 0) np->alias_ctx = (void *)((uintptr_t)nodes[0]->ctx() + ((uintptr_t)c.ctx_alias << 32)); // same low 32 bits as the first interface's context
     Node *save = cur;
     int savetag = ledger_tag;
     cur = np; ledger_tag = 1; handling_base = now; sleep_accum = 0;
